@@ -149,6 +149,9 @@ def classify(text):
         tt, s = tok.type, tok.string
         a, b = off(tok.start), off(tok.end)
         if tt == T.STRING:
+            # CPython 3.12's tokenizer reports the end column of a string continued over a backslash-newline in BYTES
+            # when the last line has non-ASCII characters: trust the token text, not tok.end
+            b = a + len(s)
             if text[a:b] != s:
                 return None          # offset bookkeeping disagrees (should not happen for this alphabet)
             p = _PREFIX.match(s).group(0)
